@@ -43,6 +43,18 @@ Theorem success_event_sets_latest : forall fx w seg o st h c,
 Proof. exact success_event_sets_latest_l. Qed.
 Print Assumptions success_event_sets_latest.
 
+(* a sync that reports success is complete, whatever happened on the way - faults that were
+   retried around, context cancellation inside a request (FCtxCancel), between the answer to one
+   request and the next (FOkCancel), from the block hook between two segments (HCancel), before
+   the sync was called (op_precancel): every block from the head down to (not including) the
+   latest-synced one is in the store.  (A cancellation can only make the sync fail, or come too
+   late to matter.) *)
+Theorem success_is_complete : forall fx w seg o st h c,
+  In (EvOk h c) (o_events (snd (step fx w seg o st))) ->
+  forall p, In p (todo h (s_latest st)) -> In p (s_store (fst (step fx w seg o st))).
+Proof. exact success_is_complete_l. Qed.
+Print Assumptions success_is_complete.
+
 (* 3. an announce-triggered sync never fails silently; when it fails - at any point,
       including before the first request (the syncer cannot be made) - it emits exactly one
       error notification, with count 0, and its CID is no longer in the duplicate filter
